@@ -654,7 +654,7 @@ ASSUMPTION_RE = re.compile(r"external_body|assume_specification|\bassume\s*\(|\b
 
 def generate(unit_path, repo=REPO, canary=None, auto_consts=()):
     text = open(unit_path).read()
-    meta, segs = _parse_unit(text, os.path.dirname(os.path.abspath(unit_path)))
+    meta, segs = _parse_unit(text, os.path.dirname(os.path.realpath(unit_path)))
     if meta["assumed_items"] is not None:
         meta["assumed_items"] += meta.get("included_assumed_items", 0)
     out = [HEADER]
